@@ -664,16 +664,18 @@ theorem childReports_clean (path : Path) (gen : Nat) : ∀ (cs : List Child) (i 
       · exact hc
       · exact h3 c' hc'
 
-/-- **C13_generated_total** (true since fix f1fcb9a, F35; conditional on the translator fact that the generator branch
-raises on a failed child report). Whatever children a task generator defines while it runs: either the generator
-fails (so the build does not end with exit code 0), or every child — none of them uncollectable — is collected, in
-order, exactly once; no generated task is silently dropped. -/
-theorem C13_generated_total (hfact : genRaisesOnFailedChild = true) (path : Path) (gen : Nat) (cs : List Child) :
+/-- the source under check raises on a failed child report (translator fact; false for the code before f1fcb9a). -/
+theorem genRaises_fact : genRaisesOnFailedChild = true := by decide
+
+/-- **C13_generated_total** (true since fix f1fcb9a, F35). Whatever children a task generator defines while it runs:
+either the generator fails (so the build does not end with exit code 0), or every child — none of them
+uncollectable — is collected, in order, exactly once; no generated task is silently dropped. -/
+theorem C13_generated_total (path : Path) (gen : Nat) (cs : List Child) :
     generatorCollect genRaisesOnFailedChild (childReports path gen 0 cs) = none ∨
     (generatorCollect genRaisesOnFailedChild (childReports path gen 0 cs) = some (childReports path gen 0 cs) ∧
       (childReports path gen 0 cs).length = cs.length ∧ ∀ c ∈ cs, c.uncollectable = false) := by
   unfold generatorCollect
-  rw [hfact]
+  rw [genRaises_fact]
   cases h : (childReports path gen 0 cs).any Report.isFail with
   | true => left; simp
   | false =>
